@@ -26,7 +26,8 @@ def parseVals (s : String) : List (Nat × Nat) :=
 /-- the scanner's frame rendering (harness/src/conn.rs `Scanner::feed`) -/
 def parseFr (s : String) : Option Fr :=
   match s.splitOn ":" with
-  | ["D", sid, fl, len] => do some (.data (← sid.toNat?) (← fl.toNat?) (← len.toNat?))
+  | ["D", sid, fl, len] => do some (.data (← sid.toNat?) (← fl.toNat?) (← len.toNat?) (← len.toNat?))
+  | ["D", sid, fl, len, dl] => do some (.data (← sid.toNat?) (← fl.toNat?) (← len.toNat?) (← dl.toNat?))
   | ["H", sid, fl, _len, f] => do some (.headers (← sid.toNat?) (← fl.toNat?) (parseFieldsEq f))
   | ["PP", sid, pr, _len, f] => do some (.pushPromise (← sid.toNat?) (← pr.toNat?) (parseFieldsEq f))
   | ["Hfrag", sid, _, _] => do some (.fragment (← sid.toNat?))
@@ -63,8 +64,13 @@ def handleWire (w : WSt) (ws : List String) : Option (WSt × String) :=
     match sid.toNat?, cb.toNat? with
     | some s, some n => some (apiReset w s n, "ok")
     | _, _ => none
+  | ["mon_cn", "exempt_open", sid] => sid.toNat?.map fun s => (exemptOpen w s, "ok")
   | ["mon_cn", "target", n] => n.toNat?.map fun n => (apiTarget w n, "ok")
   | ["mon_cn", "quiescent"] => some (w, showViols (quiescent w))
+  | ["mon_cn", "delivered", sid, what] =>
+    match sid.toNat? with
+    | some s => some (w, showViols (delivered w s what))
+    | none => none
   | _ => none
 
 end H2V.Driver
